@@ -362,6 +362,16 @@ GENERAL_ASSUMPTIONS = [
     'termination is not proved except where a decreases clause is listed',
     'extraction drops docstrings, logging.* call statements and the text of error '
     'messages that no clause mentions (listed per function in functions_under_contract)',
+    'abstract string concatenation is associative with the empty string as unit (a + b, '
+    'f-strings and str.format over str pieces denote one canonical term); slicing, list/dict '
+    'methods, dict(zip(..)), reversed, enumerate and comprehensions follow the CPython '
+    'semantics checked by tools/axiom_conformance.py',
+    'a module-level variable that some function rebinds (`global x`) and that is not part of '
+    'the declared state is arbitrary at entry and after every call, with-body and loop cut; a '
+    'local read before assignment raises UnboundLocalError; small generator context managers '
+    '(pre; try: yield finally: fin) are executed from their source at the with-site',
+    'solver budgets are CPU seconds per back end; `unknown`, timeouts and solver crashes are '
+    '"not discharged", never "refuted"',
 ]
 
 
